@@ -498,6 +498,20 @@ Theorem x86_class_members_share_the_key : forall v skip same l s, In (l, s) (by_
 Proof. exact x86_class_members. Qed.
 Print Assumptions x86_class_members_share_the_key.
 
+(* every cpu of every requested cpuset is an index below nbprocs; when no PU was skipped (no restriction to a
+   binding, every dump file readable) the x86 request list meets the hypothesis of discovery_children_cover_cpusets *)
+Theorem x86_request_cpus_below_nbprocs : forall keep v rs r j,
+  x86_requests keep v = Some rs -> In r rs -> mem j (q_cs r) = true -> j < nbprocs v.
+Proof. exact x86_request_bits_below_nbprocs. Qed.
+Print Assumptions x86_request_cpus_below_nbprocs.
+
+Theorem x86_requests_request_every_cpu_alone : forall keep v rs,
+  x86_requests keep v = Some rs -> (forall i, i < nbprocs v -> xp_present (proc v i) = true) ->
+  forall r j, In r rs -> mem j (q_cs r) = true ->
+  exists r', In r' rs /\ q_cs r' = bs_single j /\ q_type r' = HWLOC_OBJ_PU.
+Proof. exact x86_requests_have_singletons. Qed.
+Print Assumptions x86_requests_request_every_cpu_alone.
+
 Example x86_requests_nonvacuous :
   match x86_requests (fun _ => true) ex_xview with
   | Some rs => List.length rs = 19%nat /\ In (simple_req HWLOC_OBJ_PU 6 (bs_single 6)) rs /\ ~ In (simple_req HWLOC_OBJ_PU 5 (bs_single 5)) rs
